@@ -184,7 +184,21 @@ func (d *DateTimeType) GetTime() (time.Time, error) {
 
 func NewDurationType(duration time.Duration) *DurationType {
 	d, _ := period.NewOf(duration)
-	value := DurationType(d.String())
+	text := d.String()
+
+	// the period is written with weeks if it consists of whole weeks,
+	// xs:duration does not know a week designator
+	if index := strings.Index(text, "W"); index > 0 {
+		start := index
+		for start > 0 && text[start-1] >= '0' && text[start-1] <= '9' {
+			start--
+		}
+		if weeks, err := strconv.Atoi(text[start:index]); err == nil {
+			text = text[:start] + strconv.Itoa(weeks*7) + "D" + text[index+1:]
+		}
+	}
+
+	value := DurationType(text)
 	return &value
 }
 
